@@ -23,6 +23,15 @@ def cpp_header(t: pydsdl.CompositeType) -> str:
     return codec.header_of(t)[:-2] + ".hpp"
 
 
+def has_bool_array(t: pydsdl.SerializableType) -> bool:
+    """std::bitset / std::vector<bool> members: their word-level bit manipulation does not finish within the budget (stated as not covered)"""
+    if isinstance(t, pydsdl.ArrayType):
+        return isinstance(t.element_type, pydsdl.BooleanType) or has_bool_array(t.element_type)
+    if isinstance(t, pydsdl.CompositeType):
+        return any(has_bool_array(f.data_type) for f in D.inner(t).fields_except_padding)
+    return False
+
+
 def has_variable_array(t: pydsdl.SerializableType) -> bool:
     if isinstance(t, pydsdl.VariableLengthArrayType):
         return True
